@@ -1471,8 +1471,12 @@ func (d *Data) storeAndUpdate(ctx *datastore.VersionedCtx, keyStr string, newDat
 			if strings.HasSuffix(field, "_time") {
 				// a client may set <field>_time itself, and not necessarily to a string
 				if timeStr, ok := newData[field].(string); ok {
+					// the latest change of the field in any annotation, as initFieldTimes computes it:
+					// times carried forward from the stored record must not replace a later one
 					rootField := field[:len(field)-5]
-					mdb.fieldTimes[rootField] = timeStr
+					if cur, found := mdb.fieldTimes[rootField]; !found || timeStr > cur {
+						mdb.fieldTimes[rootField] = timeStr
+					}
 				}
 			}
 		}
